@@ -324,6 +324,9 @@ class World:
             elif o == "setvalue":
                 kind = dep["vecs"][ev["v"] - 1]["kind"]
                 self.elem(ev["v"], ev["e"]).set_value(conc(kind, ev["x"]))
+            elif o == "reset":
+                kind = dep["vecs"][ev["v"] - 1]["kind"]
+                self.elem(ev["v"], ev["e"]).reset_value(conc(kind, ev["x"]))
             elif o == "state":
                 self.vec(ev["v"]).state_ = ev["st"]
             elif o == "ven":
@@ -510,8 +513,11 @@ def random_ops(r, dep: dict, length: int, world: "World") -> List[dict]:
         ei = r.randint(1, len(v["elems"]))
         if x < 0.18:
             ops.append({"o": "assign", "v": vi, "e": ei, "x": domain(v["kind"], r, wrong=r.random() < 0.1)})
-        elif x < 0.32:
+        elif x < 0.27:
             ops.append({"o": "setvalue", "v": vi, "e": ei, "x": domain(v["kind"], r)})
+        elif x < 0.32:
+            if v["kind"] in ("text", "number", "light"):       # reset_value bypasses the switch rule by design: not exercised on switches
+                ops.append({"o": "reset", "v": vi, "e": ei, "x": domain(v["kind"], r)})
         elif x < 0.62:
             ops.append(random_new(r, dep, world))
         elif x < 0.74:
